@@ -343,19 +343,53 @@ def never_rule(ctx):
         item = [p for p in pushes if "item" in p[0] and "index" not in p[0]]
         ok_idx = bool(idx) and all(sir.expr_str(p[1]).endswith("Invalid") for p in idx)
         obs.append(ob("C11.never/for-index", ok_idx, ctx.where(f), "loop index scope has lvalue_path %s" % [sir.expr_str(p[1]) for p in idx]))
-        ok_item = False
+        # item: `Var {..}` exactly when lvalue_path_from_data_scope is Some, `Invalid` otherwise (if-let / match / map..unwrap_or)
+        import guards as gd
+        ok_item = None
         for p in item:
             e = p[1]
-            if e is not None and e.get("k") == "if" and "lvalue_path_from_data_scope" in sir.expr_str(e["cond"]) and e.get("else") is not None and "Invalid" in sir.expr_str(e["else"]["stmts"][-1]["e"] if e["else"].get("k") == "block" else e["else"]):
-                ok_item = True
-        obs.append(ob("C11.never/for-item", ok_item, ctx.where(f), "loop item carries a path only when the list expression has one (else Invalid): %s" % ok_item))
-        # decision of lvalue_path_from_data_scope
+            if e is None:
+                continue
+            G = gd.guards_of(e)
+            vars_ = [x for x in sir.walk(e) if x.get("k") == "struct" and x["path"].endswith("Var")]
+            invs = [x for x in sir.walk(e) if x.get("k") == "path" and x["segs"][-1] == "Invalid"]
+            m_l = lambda ex: "lvalue_path_from_data_scope" in sir.expr_str(ex)
+            if vars_ and invs:
+                sv_ = [gd.option_state(G.get(id(x), []), m_l) for x in vars_]
+                si_ = [gd.option_state(G.get(id(x), []), m_l) for x in invs]
+                if all(x == "some" for x in sv_) and (all(x == "none" for x in si_) or any(n_.get("k") == "mcall" and n_["m"] in ("unwrap_or", "unwrap_or_else", "map_or") for n_ in sir.walk(e))):
+                    ok_item = True
+                elif any(x == "none" for x in sv_) or any(x == "some" for x in si_):
+                    ok_item = False
+            elif vars_ and not invs:
+                ok_item = False
+        obs.append(ob("C11.never/for-item", ok_item, ctx.where(f), "loop item carries a path exactly when the list expression has one (else Invalid): %s" % ok_item))
+        # decision of lvalue_path_from_data_scope, read as a table over (has model path, has script path)
+        import minieval
         dec = [x for x in sir.walk(f.body) if x.get("k") == "local" and x["pat"].get("name") == "lvalue_path_from_data_scope"]
-        okd = False
+        okd = None
+        tab = {}
         if dec:
-            s = " ".join(sir.expr_str(x) for x in sir.walk(dec[0]["init"]) if x.get("k") == "if")
-            okd = "has_model_lvalue_path&&has_script_lvalue_path" in s.replace(" ", "")
-        obs.append(ob("C11.never/for-ambiguous", okd, ctx.where(f), "a list that could be both a data path and a script path gets no path: %s" % okd))
+            # the arm for a dynamic list expression
+            arms = [a for m_ in sir.walk(dec[0]["init"]) if m_.get("k") == "match" for a in m_["arms"] if "Dynamic" in sir.pat_str(a["pat"])]
+            body = arms[0]["body"] if arms else dec[0]["init"]
+            try:
+                for mv in (True, False):
+                    for sv in (True, False):
+                        env = {"$mcall": {"has_model_lvalue_path": mv, "has_script_lvalue_path": sv}}
+                        # bind the two locals (whatever they are called) by their initialisers
+                        for st in sir.walk(body):
+                            if st.get("k") == "local" and st["pat"].get("k") == "p_ident" and st.get("init") is not None:
+                                t_ = sir.expr_str(st["init"])
+                                if "has_model_lvalue_path" in t_:
+                                    env[st["pat"]["name"]] = mv
+                                elif "has_script_lvalue_path" in t_:
+                                    env[st["pat"]["name"]] = sv
+                        tab[(mv, sv)] = minieval.ev(body, env)
+                okd = tab == {(True, True): None, (True, False): ("Some", True), (False, True): ("Some", False), (False, False): None}
+            except minieval.Unknown:
+                okd = None
+        obs.append(ob("C11.never/for-ambiguous", okd, ctx.where(f), "list path kind by (has model path, has script path): %s (expected: both -> none, model only -> data scope, script only -> script, neither -> none)" % (tab or "not read")))
     inner = [f for f in tc.fns if f.name == "to_proc_gen_define_children_content_inner" and f.body]
     if inner:
         f = inner[0]
